@@ -605,7 +605,7 @@ ASSUMPTIONS = ['A-REAL: floats are mathematical reals except for the inf/nan TAG
                'the log-target and its gradient are pure functions of the vector they are given (uninterpreted Vec -> ExtReal / Vec -> Vec); target returns a scalar',
                '"accepted precisely when a uniform draw is below the target ratio": a tie u = ratio counts as below (accepted iff not ratio < u); ties have probability 0',
                'valid start: log-target of params0 is not nan (a nan start is accepted by both samplers: np.isinf(nan) is False)',
-               'params0 and sigma_proposals are 1-D arrays of the same length d >= 0; n_samples >= 0, warmup >= 0, n_iter >= 0, n_adapt >= 0, max_depth >= 0, max_retry_inits >= 1',
+               'params0 and sigma_proposals are 1-D numpy arrays (dtype float64 or integer-typed: separate case contracts; float32 only in the bounded tier; lists are not arrays) of the same length d >= 0; n_samples >= 0, warmup >= 0, n_iter >= 0, n_adapt >= 0, max_depth >= 0, max_retry_inits >= 1',
                'A-LOG: logging calls have no effect.  Natively the dropped logging statement of metropolis divides by n_samples + warmup '
                '(ZeroDivisionError for the degenerate request n_samples = warmup = 0): excluded by `requires n_samples + warmup >= 1`',
                'nuts with stepsize=None: the documented other exits of the initial step-size search are allowed by the contract '
